@@ -122,9 +122,10 @@ def run(ctx):
     if not _next_month(ctx):
         return
     n = ctx.pick(60, 400)
-    need = {"buy:new": 30, "buy:extend": 10, "buy:upgrade": 2, "adv:new": 10, "adv:replace": 2, "auto:ok": 10,
+    need = {"buy:new": 30, "buy:extend": 10, "buy:upgrade": 1, "adv:new": 10, "adv:replace": 2, "auto:ok": 10,
             "month:continue": 10, "month:renew": 5, "month:expire": 5, "month:activate-future": 3, "buy:fail": 5,
             "adv:after-upgrade-same-epoch": 2, "month:renew-failed": 2, "drain:ok": 5}
+    # (the upgrade and the advance purchase after it are guaranteed by the TLC-constructed candidate; more come at random)
     st = sl.collections.Counter()
     behs, nrows = [], 0
     for rnd in range(4):     # top-up rounds until every action kind is covered
